@@ -119,10 +119,12 @@ def configurations(cases, quick, seed):
                 pool = by_kind[loop]
                 seen_pairs, picked = set(), []
                 # first cover distinct (num_envs, learn_step) pairs with evolution on, then anything
+                # the second pick: the number of sub-environments does not divide evo_steps (the rollout is shorter than evo_steps)
                 for c in pool:
                     pair = (c["lp"]["ne"], c["lp"]["ls"])
                     if (len(picked) < per and pair not in seen_pairs and (c["par"]["evo"] or len(picked) % 3 == 2) and c["par"]["k"] >= 2
-                            and _exact(c) == (len(picked) % 2 == 0)):        # alternate: budget hit exactly / overshot
+                            and _exact(c) == (len(picked) % 2 == 0)           # alternate: budget hit exactly / overshot
+                            and (len(picked) % 2 == 0 or loop in ("offline", "bandit") or c["lp"]["evo"] % c["lp"]["ne"] != 0)):
                         seen_pairs.add(pair)
                         picked.append(c)
                 for c in pool:
@@ -139,6 +141,8 @@ def configurations(cases, quick, seed):
                                checkpoint=(lp["evo"] if n % 2 else None), target=None,
                                learning_delay=(6 if n % 5 == 0 else 0), L=3 + 2 * (n % 2), eval_loop=1 + (n % 4 == 0),
                                eval_steps=(None if n % 3 else 4), seed=seed + n, memsize=lp["cap"], verbose=bool(n % 2))
+                    if loop in ("on", "ma_on") and par["k"] >= 2 and j % 2 == 0:
+                        cfg["hetero"] = 1 + n % 2          # members with different learn_step: step counters drift apart
                     if par["target"]:
                         cfg["target"] = -100.0 if n % 2 else 1.0e6          # fires after the first generation / never fires
                     if loop == "bandit":
@@ -156,6 +160,11 @@ def configurations(cases, quick, seed):
     for loop, algo, mem in (("off", "DQN", "uniform"), ("on", "PPO", "none"), ("ma_off", "MADDPG", "ma"), ("ma_on", "IPPO", "none")):
         out.append(dict(loop=loop, algo=algo, mem=mem, k=2, num_envs=0, learn_step=2, batch=4, evo_steps=8, max_steps=24, evo=True,
                         elitism=True, mutate_elite=False, seed=seed + 900))
+    # on-policy members with different learn_step and no selection in between: their step counters drift apart, and the budget is
+    # met by the fastest member strictly before the slowest (where "any member" and "every member" stopping rules differ)
+    for loop, algo, ne, ls, h, mx in (("on", "PPO", 2, 2, 1, 24), ("ma_on", "IPPO", 2, 2, 1, 24), ("on", "PPO", 1, 3, 2, 40)):
+        out.append(dict(loop=loop, algo=algo, mem="none", k=2, num_envs=ne, learn_step=ls, batch=4, evo_steps=8, max_steps=mx, evo=False,
+                        elitism=False, mutate_elite=False, hetero=h, seed=seed + 950))
     if quick:   # bandits: contexts cast to float32, batch = arms (the only shape on which learn() accepts what the loop stores)
         out.append(dict(loop="bandit", algo="NeuralTS", mem="uniform", k=2, num_envs=1, learn_step=1, batch=3, evo_steps=8, max_steps=24,
                         evo=True, elitism=True, mutate_elite=False, bandit_env="float32", mut="param", episode_steps=4, seed=seed + 901))
